@@ -83,6 +83,18 @@ pub fn judge(case: &Case) -> Verdict {
         };
         let valid = (1..=7462).contains(&v);
         let exp = format!("value {} name {} class {} is_invalid {} consistent true", v, e.name_text[v as usize], e.class_text[v as usize], !valid);
+        // the same conversion through every dispatch path a caller can write: the path call `HandRank::from`, the trait
+        // explicitly, and `.into()` (an inherent function of the same name would shadow the trait only for the first)
+        let via_trait: Result<(HandRank, HandRank), String> = guard(|| (<HandRank as From<u16>>::from(v), Into::<HandRank>::into(v)));
+        match &via_trait {
+            Err(p) => return Verdict::Violated { class: "panic:value:trait-dispatch".into(), expected: exp, observed: format!("panic: {}", p) },
+            Ok((a, b)) => {
+                let direct = guard(|| HandRank::from(v));
+                if direct.as_ref().ok() != Some(a) || a != b {
+                    return Verdict::Violated { class: "value:conversion-depends-on-dispatch-path".into(), expected: format!("HandRank::from({v}), <HandRank as From<u16>>::from({v}) and {v}.into() are the same rank"), observed: format!("{:?} / {} / {}", direct.map(|h| describe(&h)), describe(a), describe(b)) };
+                }
+            }
+        }
         return match guard(|| {
             let h = HandRank::from(v);
             let n = HandRank::determine_name(&v);
@@ -297,7 +309,11 @@ pub fn run(ctx: &Ctx, rep: &mut Report) {
         rep.guard("the generated vocabulary names 309 distinct classes", distinct.len() == 309, format!("{}", distinct.len()));
         rep.add_space("every HandRankClass variant x all 65,536 values", &acc, t0, "each non-Invalid variant labels a non-empty contiguous value range; Invalid labels exactly the rest");
     }
-    // (3) hands
+    // (3) hands (the overflow-checked child of the QUICK tier stops here: values, variants and histories only)
+    if ctx.child && !ctx.tier.thorough() && ctx.shard.is_none() {
+        rep.rule = "distinct values and class variants (overflow-checked profile, quick tier: no hand spaces)".into();
+        return;
+    }
     let ident5: Vec<Vec<usize>> = vec![(0..5).collect(), (0..5).rev().collect()];
     hands_space(ctx, rep, 5, &ident5, false);
     hands_space(ctx, rep, 6, &[(0..6).rev().collect()], false);
